@@ -302,7 +302,7 @@ int main(int argc, char **argv)
     if (n_interesting == 0) vf_cap("symbol table not available: no 'interesting' function ranges, only bound_all applies");
 
     for (int a = 0; a < N_BODY_OPS; a++) for (int b = a; b < N_BODY_OPS; b++) {
-        if (!th && !((a == b && a != OP_TRAP && a != OP_FILL) || (a == OP_FAST_OVER && (b == OP_GENERAL_ATOP || b == OP_SAME_TWICE || b == OP_SHARED_SRC)) ||
+        if (!th && !((a == b && a != OP_TRAP) || (a == OP_FAST_OVER && (b == OP_GENERAL_ATOP || b == OP_SAME_TWICE || b == OP_SHARED_SRC)) ||
                      (a == OP_GENERAL_ATOP && (b == OP_GRADIENT || b == OP_FILL)) || (a == OP_REGION && b == OP_TRAP) || (a == OP_GRADIENT && b == OP_SHARED_GRADIENT))) continue;
         add_pair(a, b);
     }
